@@ -176,7 +176,11 @@ func funcName(fn *ssa.Function) string {
 		return "dyn"
 	}
 	if obj, ok := fn.Object().(*types.Func); ok && obj != nil {
-		return obj.FullName()
+		n := obj.FullName()
+		if a, ok := nameAlias[n]; ok {
+			return a // a renamed or moved anchor, found by its role: reported under its canonical name
+		}
+		return n
 	}
 	if o := fn.Origin(); o != nil {
 		return funcName(o)
